@@ -888,8 +888,10 @@ package server
 //@   safe slice
 //@   at $1 call Seek#2 before
 //@     assert [C03:every-page-rescans-from-the-newest-key-of-the-start-entity] len(key) == 11 && key[10] == 255 && arrOf(key) == arrOf(reverseFrom) && encBE16(key, 0) == encBE16(from.RelationIndexFromKey, 0) && encBE64(key, 2) == encBE64(from.RelationIndexFromKey, 2)
-//@   at $1 call ValidForPrefix#4 before
+//@   at $1 call ValidForPrefix#2 before
 //@     assert [C06,C03:incoming-scan-stops-only-when-the-index-is-exhausted-or-the-page-is-full] (0 <= $itPos[outgoingIterator] && $itPos[outgoingIterator] < N($itTxn[outgoingIterator]) && hasPfx(K($itTxn[outgoingIterator], $itPos[outgoingIterator]), $itPlen[outgoingIterator], $itPcl[outgoingIterator], $itPds[outgoingIterator], $itP64[outgoingIterator]) && kcl(K($itTxn[outgoingIterator], $itPos[outgoingIterator])) == encBE16(searchBuffer, 0) && k64at2(K($itTxn[outgoingIterator], $itPos[outgoingIterator])) == encBE64(searchBuffer, 2)) ==> limit != 0 && len(results) >= limit
+//@   at $1 call ValidForPrefix#4 before
+//@     assert [C06,C03:outgoing-scan-stops-only-when-the-index-is-exhausted-or-the-page-is-full] (0 <= $itPos[outgoingIterator] && $itPos[outgoingIterator] < N($itTxn[outgoingIterator]) && hasPfx(K($itTxn[outgoingIterator], $itPos[outgoingIterator]), $itPlen[outgoingIterator], $itPcl[outgoingIterator], $itPds[outgoingIterator], $itP64[outgoingIterator]) && kcl(K($itTxn[outgoingIterator], $itPos[outgoingIterator])) == encBE16(searchBuffer, 0) && k64at2(K($itTxn[outgoingIterator], $itPos[outgoingIterator])) == encBE64(searchBuffer, 2)) ==> limit != 0 && len(results) >= limit
 //@   at $1 call append#5 before
 //@     assert [C07:result-dataset-not-deleted] !(has(s.deletedDatasets, datasetID) && s.deletedDatasets[datasetID])
 //@     assert [C03:result-dataset-in-scope] len(from.Datasets) == 0 || (exists k int :: 0 <= k && k < len(from.Datasets) && from.Datasets[k] == datasetID)
